@@ -65,7 +65,10 @@ func verifC20LinearAttempt(count int) {
 func Harness_C20_linear_args() {
 	ctx, cancel := context.WithCancel(context.Background())
 	cancel()
-	c := LinearAttempt(ctx, time.Millisecond, 3)
+	n := verifNondetInt("count")
+	verifAssume(n >= 1 && n <= 3)
+	c := LinearAttempt(ctx, time.Millisecond, n)
+	verifAssert(len(c) == 0, "cancelled_before_call_closed_and_empty")
 	_, ok := <-c
 	verifAssert(!ok, "cancelled_before_call_closed_and_empty")
 	verifAssert(verifPanics(func() { LinearAttempt(nil, time.Millisecond, 1) }), "nil_ctx_panics")
